@@ -137,8 +137,8 @@ TRUSTED_BASE = [
     "Coq 8.16.1 kernel (coqc, full .vo build; vm_compute used in witnesses and examples; no native_compute)",
     "libraries: Coq stdlib, std++ 1.8.0 (axiom-free); Print Assumptions under every property theorem",
     "extraction: ExtrOcamlBasic only (bool/option/unit/prod/list/sumbool to OCaml natives), no Extract Constant/Inductive of our own; OCaml 4.13.1 ocamlopt; driver.ml (parsing/printing only)",
-    "correspondence check: Rust harness vfsx linked against /repo (path dependency, rebuilt every run), its HarnessFS wrapper (sorted listings, call log, fault injection), Python generators/comparator, adequacy of the generated cases (differential testing)",
-    "modelled, not verified: OS/std::fs (Base/PhysFS.v), std::io::Cursor and io::copy (Base/Handles.v), HashMap/HashSet iteration order (listings are sorted by the harness), SystemTime::now (TAuto), rust-embed, rustc",
+    "correspondence check: Rust harness vfsx linked against /repo (path dependency, rebuilt every run), its HarnessFS wrapper (sorted listings, call log, k-th-call fault injection, handles wrapped so that reads / writes+flushes can be made to fail), the cooperative schedulers (OS threads at the verif-hooks yield points; async tasks at a gate before every trait call), Python generators/comparator, adequacy of the generated cases (differential testing)",
+    "modelled, not verified: OS/std::fs (Base/PhysFS.v), std::io::Cursor and io::copy (Base/Handles.v; under failing handle I/O: io::copy fails at once when reads fail and as soon as a non-empty chunk reaches the writer when writes fail), symbolic links (a served directory of links to outside files is modelled as plain files), HashMap/HashSet iteration order (listings are sorted by the harness), SystemTime::now (TAuto), rust-embed, rustc",
 ]
 
 
